@@ -1,1 +1,345 @@
 import FluentModel.Resolver
+/-!
+# C09, byte level: the marks FSI (U+2068 = `E2 81 A8`) and PDI (U+2069 = `E2 81 A9`)
+
+* `strip` removes every mark found by a left-to-right scan; `scan`/`Balanced` is the Dyck check of the
+  same scan (this is exactly the `balanced` / `strip` of `tools/fv/props/c09.py` on valid UTF-8).
+* `MarkFree p` is the hypothesis on the *pieces* the resolver writes (texts, literals, argument
+  values, function / formatter / transform outputs, identifiers): every byte `E2` of `p` is followed
+  **inside `p`** by two bytes that do not complete a mark.  It says both "contains no mark" and "does
+  not end in a partial mark"; "does not start with the tail of a mark" is not needed separately
+  because a tail can only be completed by an `E2` of the piece before, which `MarkFree` forbids.
+  `MarkFree` is closed under concatenation, so junctions between pieces never create a mark.
+  Every concatenation of well-formed UTF-8 sequences other than U+2068 / U+2069 is `MarkFree`
+  (`markFree_of_utf8`).
+* `Dyck` — balanced insertions of marks into mark-free pieces; `Iso on off` — `on` is `off` with
+  balanced `fsi … pdi` pairs inserted.
+-/
+namespace FluentProofs.Bidi
+open FluentModel FluentModel.Resolver
+
+/-- the three bytes form FSI or PDI -/
+def isMark (b0 b1 b2 : UInt8) : Bool := b0 == 0xE2 && b1 == 0x81 && (b2 == 0xA8 || b2 == 0xA9)
+
+/-- remove every FSI / PDI (left-to-right scan) -/
+def strip : Bytes → Bytes
+  | [] => []
+  | [a] => [a]
+  | [a, b] => [a, b]
+  | b0 :: b1 :: b2 :: r => if isMark b0 b1 b2 then strip r else b0 :: strip (b1 :: b2 :: r)
+
+@[simp] theorem strip_nil : strip [] = [] := by rw [strip]
+
+/-- nesting depth after scanning; `none` = a PDI without an open FSI -/
+def scan : Bytes → Nat → Option Nat
+  | [], d => some d
+  | [_], d => some d
+  | [_, _], d => some d
+  | b0 :: b1 :: b2 :: r, d =>
+    if b0 = 0xE2 ∧ b1 = 0x81 ∧ b2 = 0xA8 then scan r (d + 1)
+    else if b0 = 0xE2 ∧ b1 = 0x81 ∧ b2 = 0xA9 then (if d = 0 then none else scan r (d - 1))
+    else scan (b1 :: b2 :: r) d
+
+@[simp] theorem scan_nil (d : Nat) : scan [] d = some d := by rw [scan]
+
+/-- the marks of `b` are balanced and properly nested -/
+def Balanced (b : Bytes) : Prop := scan b 0 = some 0
+
+instance (b : Bytes) : Decidable (Balanced b) := by unfold Balanced; infer_instance
+
+/-- `b` contains neither FSI nor PDI as a contiguous byte sequence -/
+def NoMarks (b : Bytes) : Prop := ∀ pre post, b ≠ pre ++ fsi ++ post ∧ b ≠ pre ++ pdi ++ post
+
+/-- piece hypothesis: every `E2` is followed inside the piece by two bytes not completing a mark -/
+inductive MarkFree : Bytes → Prop
+  | nil : MarkFree []
+  | cons (b : UInt8) {r : Bytes} : b ≠ 0xE2 → MarkFree r → MarkFree (b :: r)
+  | e2 (x y : UInt8) {r : Bytes} : isMark 0xE2 x y = false → MarkFree (x :: y :: r) → MarkFree (0xE2 :: x :: y :: r)
+
+/-- executable form of `MarkFree` (for tests) -/
+def markFreeB : Bytes → Bool
+  | [] => true
+  | b0 :: t =>
+    if b0 = 0xE2 then
+      match t with
+      | b1 :: b2 :: _ => !isMark b0 b1 b2 && markFreeB t
+      | _ => false
+    else markFreeB t
+
+theorem markFreeB_sound : ∀ b, markFreeB b = true → MarkFree b
+  | [], _ => .nil
+  | b0 :: t, h => by
+    unfold markFreeB at h
+    by_cases h0 : b0 = 0xE2
+    · subst h0
+      rcases t with _ | ⟨b1, _ | ⟨b2, r⟩⟩ <;> simp at h
+      exact .e2 b1 b2 (by simpa using h.1) (markFreeB_sound _ h.2)
+    · simp [h0] at h
+      exact .cons b0 h0 (markFreeB_sound _ h)
+
+theorem MarkFree.tail {b : UInt8} {r : Bytes} (h : MarkFree (b :: r)) : MarkFree r := by
+  cases h with
+  | cons _ _ h => exact h
+  | e2 _ _ _ h => exact h
+
+theorem MarkFree.append {p q : Bytes} (hp : MarkFree p) (hq : MarkFree q) : MarkFree (p ++ q) := by
+  induction hp with
+  | nil => exact hq
+  | cons b hb _ ih => exact .cons b hb ih
+  | e2 x y hm _ ih => exact .e2 x y hm ih
+
+theorem MarkFree.drop {q : Bytes} : ∀ (p : Bytes), MarkFree (p ++ q) → MarkFree q
+  | [], h => h
+  | _ :: p, h => MarkFree.drop p h.tail
+
+theorem MarkFree.single {b : UInt8} (h : b ≠ 0xE2) : MarkFree [b] := .cons b h .nil
+
+/-- a mark-free piece contains no mark -/
+theorem MarkFree.noMarks {b : Bytes} (h : MarkFree b) : NoMarks b := by
+  intro pre post
+  constructor
+  · intro e; subst e
+    rw [List.append_assoc] at h
+    have h' := MarkFree.drop pre h
+    cases h' with
+    | cons _ hb _ => exact hb rfl
+    | e2 _ _ hm _ => simp [isMark] at hm
+  · intro e; subst e
+    rw [List.append_assoc] at h
+    have h' := MarkFree.drop pre h
+    cases h' with
+    | cons _ hb _ => exact hb rfl
+    | e2 _ _ hm _ => simp [isMark] at hm
+
+/-! ## `strip` and `scan` across junctions -/
+
+theorem strip_cons_of_ne {b : UInt8} (h : b ≠ 0xE2) (x : Bytes) : strip (b :: x) = b :: strip x := by
+  rcases x with _ | ⟨c, _ | ⟨d, y⟩⟩ <;> simp [strip, isMark, h]
+
+theorem strip_e2_of_not {x y : UInt8} (h : isMark 0xE2 x y = false) (r : Bytes) :
+    strip (0xE2 :: x :: y :: r) = 0xE2 :: strip (x :: y :: r) := by
+  rw [strip]; simp [h]
+
+theorem strip_fsi (r : Bytes) : strip (fsi ++ r) = strip r := by
+  simp [fsi, strip, isMark]
+
+theorem strip_pdi (r : Bytes) : strip (pdi ++ r) = strip r := by
+  simp [pdi, strip, isMark]
+
+/-- junction lemma: a mark-free piece passes through `strip` unchanged whatever follows it -/
+theorem strip_markFree_append {p : Bytes} (hp : MarkFree p) (r : Bytes) : strip (p ++ r) = p ++ strip r := by
+  induction hp with
+  | nil => rfl
+  | cons b hb _ ih => simp only [List.cons_append]; rw [strip_cons_of_ne hb, ih]
+  | e2 x y hm _ ih =>
+    simp only [List.cons_append] at ih ⊢
+    rw [strip_e2_of_not hm, ih]
+
+theorem strip_markFree {p : Bytes} (hp : MarkFree p) : strip p = p := by
+  have := strip_markFree_append hp []
+  simpa [strip] using this
+
+theorem scan_cons_of_ne {b : UInt8} (h : b ≠ 0xE2) (x : Bytes) (d : Nat) : scan (b :: x) d = scan x d := by
+  rcases x with _ | ⟨c, _ | ⟨e, y⟩⟩ <;> simp [scan, h]
+
+theorem scan_e2_of_not {x y : UInt8} (h : isMark 0xE2 x y = false) (r : Bytes) (d : Nat) :
+    scan (0xE2 :: x :: y :: r) d = scan (x :: y :: r) d := by
+  rw [scan]
+  have h1 : ¬ (x = 0x81 ∧ y = 0xA8) := by intro ⟨a, b⟩; subst a; subst b; simp [isMark] at h
+  have h2 : ¬ (x = 0x81 ∧ y = 0xA9) := by intro ⟨a, b⟩; subst a; subst b; simp [isMark] at h
+  rw [if_neg (fun c => h1 c.2), if_neg (fun c => h2 c.2)]
+
+theorem scan_fsi (r : Bytes) (d : Nat) : scan (fsi ++ r) d = scan r (d + 1) := by
+  simp [fsi, scan]
+
+theorem scan_pdi (r : Bytes) (d : Nat) : scan (pdi ++ r) (d + 1) = scan r d := by
+  simp only [pdi, List.cons_append, List.nil_append]; rw [scan]; simp
+
+theorem scan_markFree_append {p : Bytes} (hp : MarkFree p) (r : Bytes) (d : Nat) : scan (p ++ r) d = scan r d := by
+  induction hp with
+  | nil => rfl
+  | cons b hb _ ih => simp only [List.cons_append]; rw [scan_cons_of_ne hb, ih]
+  | e2 x y hm _ ih =>
+    simp only [List.cons_append] at ih ⊢
+    rw [scan_e2_of_not hm, ih]
+
+/-! ## the Dyck language over mark-free pieces -/
+
+/-- mark-free pieces with balanced, properly nested `fsi … pdi` pairs around them -/
+inductive Dyck : Bytes → Prop
+  | nil : Dyck []
+  | piece {p a : Bytes} : MarkFree p → Dyck a → Dyck (p ++ a)
+  | wrap {a c : Bytes} : Dyck a → Dyck c → Dyck (fsi ++ (a ++ (pdi ++ c)))
+
+theorem Dyck.of_markFree {p : Bytes} (h : MarkFree p) : Dyck p := by
+  have := Dyck.piece h Dyck.nil
+  simpa using this
+
+theorem Dyck.append {a b : Bytes} (ha : Dyck a) (hb : Dyck b) : Dyck (a ++ b) := by
+  induction ha with
+  | nil => exact hb
+  | piece hp _ ih => rw [List.append_assoc]; exact .piece hp ih
+  | wrap h1 _ _ ih2 =>
+    have := Dyck.wrap h1 ih2
+    simpa [List.append_assoc] using this
+
+theorem Dyck.isolate {a : Bytes} (ha : Dyck a) : Dyck (fsi ++ (a ++ pdi)) := by
+  have := Dyck.wrap ha Dyck.nil
+  simpa using this
+
+theorem Dyck.scan_append {a : Bytes} (ha : Dyck a) : ∀ (r : Bytes) (d : Nat), scan (a ++ r) d = scan r d := by
+  induction ha with
+  | nil => intro r d; rfl
+  | piece hp _ ih => intro r d; rw [List.append_assoc, scan_markFree_append hp, ih]
+  | wrap _ _ ih1 ih2 =>
+    intro r d
+    rw [List.append_assoc, scan_fsi, List.append_assoc, ih1, List.append_assoc, scan_pdi, ih2]
+
+theorem Dyck.balanced {a : Bytes} (ha : Dyck a) : Balanced a := by
+  have := ha.scan_append [] 0
+  simpa [Balanced, scan] using this
+
+/-- stripping a Dyck word leaves a mark-free word -/
+theorem Dyck.strip_markFree {a : Bytes} (ha : Dyck a) : MarkFree (strip a) := by
+  induction ha with
+  | nil => exact .nil
+  | piece hp _ ih => rw [strip_markFree_append hp]; exact hp.append ih
+  | wrap h1 h2 ih1 ih2 =>
+    rw [strip_fsi]
+    -- strip (a ++ pdi ++ c) = strip a ++ strip c, by induction on the Dyck structure of `a`
+    have key : ∀ {a : Bytes}, Dyck a → ∀ r, strip (a ++ r) = strip a ++ strip r := by
+      intro a ha
+      induction ha with
+      | nil => intro r; rfl
+      | piece hp _ ih => intro r; rw [List.append_assoc, strip_markFree_append hp, ih, strip_markFree_append hp, List.append_assoc]
+      | wrap _ _ ih1 ih2 =>
+        intro r
+        rw [List.append_assoc, strip_fsi, List.append_assoc, ih1, List.append_assoc, strip_pdi, ih2,
+          strip_fsi, ih1, strip_pdi, List.append_assoc]
+    rw [key h1, strip_pdi]
+    exact ih1.append ih2
+
+/-! ## "`on` is `off` with marks inserted" -/
+
+/-- `on` is `off` with balanced `fsi … pdi` pairs inserted (no condition on the bytes of `off`) -/
+inductive Iso : Bytes → Bytes → Prop
+  | nil : Iso [] []
+  | byte (b : UInt8) {a c : Bytes} : Iso a c → Iso (b :: a) (b :: c)
+  | wrap {a b c d : Bytes} : Iso a b → Iso c d → Iso (fsi ++ (a ++ (pdi ++ c))) (b ++ d)
+
+theorem Iso.refl : ∀ (p : Bytes), Iso p p
+  | [] => .nil
+  | b :: p => .byte b (Iso.refl p)
+
+theorem Iso.append {a b c d : Bytes} (h1 : Iso a b) (h2 : Iso c d) : Iso (a ++ c) (b ++ d) := by
+  induction h1 with
+  | nil => exact h2
+  | byte b _ ih => exact .byte b ih
+  | wrap h h' _ ih2 =>
+    have := Iso.wrap h ih2
+    simpa [List.append_assoc] using this
+
+theorem Iso.isolate {a b : Bytes} (h : Iso a b) : Iso (fsi ++ (a ++ pdi)) b := by
+  have := Iso.wrap h Iso.nil
+  simpa using this
+
+/-- marks inserted anywhere (balance forgotten) -/
+inductive Ins : Bytes → Bytes → Prop
+  | nil : Ins [] []
+  | byte (b : UInt8) {a c : Bytes} : Ins a c → Ins (b :: a) (b :: c)
+  | fsi {a c : Bytes} : Ins a c → Ins (fsi ++ a) c
+  | pdi {a c : Bytes} : Ins a c → Ins (pdi ++ a) c
+
+theorem Ins.append {a b c d : Bytes} (h1 : Ins a b) (h2 : Ins c d) : Ins (a ++ c) (b ++ d) := by
+  induction h1 with
+  | nil => exact h2
+  | byte b _ ih => exact .byte b ih
+  | fsi _ ih => rw [List.append_assoc]; exact .fsi ih
+  | pdi _ ih => rw [List.append_assoc]; exact .pdi ih
+
+theorem Iso.ins {a b : Bytes} (h : Iso a b) : Ins a b := by
+  induction h with
+  | nil => exact .nil
+  | byte b _ ih => exact .byte b ih
+  | wrap _ _ ih1 ih2 => exact .fsi (ih1.append (.pdi ih2))
+
+private theorem ins_not_tail {a : Bytes} {x y : UInt8} {r : Bytes} (h : Ins a (x :: y :: r))
+    (hm : isMark 0xE2 x y = false) :
+    ∀ b1 b2 a', a = b1 :: b2 :: a' → isMark 0xE2 b1 b2 = false := by
+  intro b1 b2 a' e
+  cases h with
+  | byte _ h1 =>
+    cases h1 with
+    | byte _ _ => simp at e; rcases e with ⟨rfl, rfl, _⟩; exact hm
+    | fsi _ => simp [fsi] at e; rcases e with ⟨rfl, rfl, _⟩; simp [isMark]
+    | pdi _ => simp [pdi] at e; rcases e with ⟨rfl, rfl, _⟩; simp [isMark]
+  | fsi _ => simp [fsi] at e; rcases e with ⟨rfl, rfl, _⟩; simp [isMark]
+  | pdi _ => simp [pdi] at e; rcases e with ⟨rfl, rfl, _⟩; simp [isMark]
+
+private theorem strip_e2_general (a : Bytes) (h : ∀ b1 b2 a', a = b1 :: b2 :: a' → isMark 0xE2 b1 b2 = false) :
+    strip (0xE2 :: a) = 0xE2 :: strip a := by
+  rcases a with _ | ⟨b1, _ | ⟨b2, a'⟩⟩
+  · simp [strip]
+  · simp [strip]
+  · rw [strip]; simp [h b1 b2 a' rfl]
+
+/-- **additivity at byte level**: inserting marks into a mark-free text and stripping gives it back -/
+theorem Ins.strip_eq {on off : Bytes} (h : Ins on off) (hoff : MarkFree off) : strip on = off := by
+  induction h with
+  | nil => rfl
+  | fsi _ ih => rw [strip_fsi]; exact ih hoff
+  | pdi _ ih => rw [strip_pdi]; exact ih hoff
+  | byte b h1 ih =>
+    have ih := ih hoff.tail
+    by_cases hb : b = 0xE2
+    · subst hb
+      cases hoff with
+      | cons _ hne _ => exact absurd rfl hne
+      | e2 x y hm _ => rw [strip_e2_general _ (ins_not_tail h1 hm), ih]
+    · rw [strip_cons_of_ne hb, ih]
+
+theorem Iso.strip_eq {on off : Bytes} (h : Iso on off) (hoff : MarkFree off) : strip on = off := h.ins.strip_eq hoff
+
+/-! ## well-formed UTF-8 pieces are mark-free -/
+
+def isCont (b : UInt8) : Prop := 0x80 ≤ b ∧ b ≤ 0xBF
+
+/-- the shape of one UTF-8 encoded scalar (lead byte class + continuation bytes) -/
+inductive Utf8Seq : Bytes → Prop
+  | one (b : UInt8) : b < 0x80 → Utf8Seq [b]
+  | two (b0 b1 : UInt8) : 0xC2 ≤ b0 → b0 ≤ 0xDF → isCont b1 → Utf8Seq [b0, b1]
+  | three (b0 b1 b2 : UInt8) : 0xE0 ≤ b0 → b0 ≤ 0xEF → isCont b1 → isCont b2 → Utf8Seq [b0, b1, b2]
+  | four (b0 b1 b2 b3 : UInt8) : 0xF0 ≤ b0 → b0 ≤ 0xF4 → isCont b1 → isCont b2 → isCont b3 → Utf8Seq [b0, b1, b2, b3]
+
+theorem isCont_ne {b : UInt8} (h : isCont b) : b ≠ 0xE2 := by
+  intro e; subst e; exact absurd h.2 (by decide)
+
+/-- any concatenation of UTF-8 sequences none of which is U+2068 / U+2069 satisfies the piece hypothesis -/
+theorem markFree_of_utf8 : ∀ (cs : List Bytes), (∀ c ∈ cs, Utf8Seq c ∧ c ≠ fsi ∧ c ≠ pdi) → MarkFree cs.flatten
+  | [], _ => .nil
+  | c :: cs, h => by
+    have ih := markFree_of_utf8 cs (fun c hc => h c (List.mem_cons_of_mem _ hc))
+    obtain ⟨hs, hf, hp⟩ := h c List.mem_cons_self
+    rw [List.flatten_cons]
+    refine MarkFree.append ?_ ih
+    cases hs with
+    | one b hb => exact .single (by intro e; subst e; exact absurd hb (by decide))
+    | two b0 b1 _ h1 c1 =>
+      exact .cons b0 (by intro e; subst e; exact absurd h1 (by decide)) (.single (isCont_ne c1))
+    | three b0 b1 b2 _ _ c1 c2 =>
+      by_cases e : b0 = 0xE2
+      · subst e
+        refine .e2 b1 b2 ?_ (.cons b1 (isCont_ne c1) (.single (isCont_ne c2)))
+        cases hm : isMark 0xE2 b1 b2 with
+        | false => rfl
+        | true =>
+          simp [isMark] at hm
+          rcases hm with ⟨rfl, rfl | rfl⟩
+          · exact absurd rfl hf
+          · exact absurd rfl hp
+      · exact .cons b0 e (.cons b1 (isCont_ne c1) (.single (isCont_ne c2)))
+    | four b0 b1 b2 b3 h0 _ c1 c2 c3 =>
+      exact .cons b0 (by intro e; subst e; exact absurd h0 (by decide))
+        (.cons b1 (isCont_ne c1) (.cons b2 (isCont_ne c2) (.single (isCont_ne c3))))
+
+end FluentProofs.Bidi
